@@ -497,8 +497,8 @@ def explore_level(cases, ev, findings, pool, deadline, stats):
             stats["worst"] = max(stats["worst"], res.get("worst", 0.0))
             sig = res["sample"]["cell"]
             stats["cells"][sig] = stats["cells"].get(sig, 0) + 1
-            if len(res["case"]["ops"]) >= 2 or res["case"]["init"] != "plain":
-                ev.sample(res["sample"], limit=4)
+            if len(res["case"]["ops"]) >= 2 and stats["cells"][sig] == 1:
+                ev.sample(res["sample"], limit=8)          # first depth-2 history of every cell composition
         for d in res.get("diagnostics", ()):
             if d.startswith("note: "):
                 stats["dl_first_step"] += 1
